@@ -145,37 +145,109 @@ fn c08_k_quick_hull_4() { body_hull4(0); }
 #[kani::unwind(8)]
 fn c08_k_graham_hull_4() { body_hull4(1); }
 
-// ---- hull contract on a MENU of literal point sets (bounded; symbolic point sets do not finish, see above) ----
+// ---- hull contract on a MENU of literal point sets, each written from three different start points (every
+//      vector is a `vec![..]` literal: rotating at run time defeats CBMC's constant folding).  Bounded; symbolic
+//      point sets do not finish (see above).
 #[cfg(kani)]
-fn menu_points(which: u8) -> Vec<Coord<i16>> {
-    let c = |x: i16, y: i16| Coord { x, y };
-    match which {
-        0 => vec![c(4, 0), c(2, 1), c(3, 4), c(0, 2)],                          // first point is the lexicographically greatest
-        1 => vec![c(0, 0), c(2, 0), c(4, 0), c(4, 4), c(0, 4)],                 // collinear point on the edge after the start vertex
-        2 => vec![c(0, 0), c(4, 0), c(4, 4), c(0, 4), c(2, 2), c(0, 0), c(4, 4)], // interior point and duplicates
-        3 => vec![c(0, 0), c(1, 3), c(2, 4), c(3, 3), c(4, 0), c(2, -1), c(1, 0), c(3, 0)],
-        _ => vec![c(3, 1), c(0, 0), c(1, 1), c(2, 2), c(3, 3), c(0, 3)],        // collinear diagonal
-    }
-}
-#[cfg(kani)]
-fn body_hull_menu(which: u8, graham: bool) {
-    let orig = menu_points(which);
-    let mut work = menu_points(which);
+fn check_hull(orig: Vec<Coord<i16>>, mut work: Vec<Coord<i16>>, graham: bool) {
     let h = if graham { graham::graham_hull(&mut work, false) } else { qhull::quick_hull(&mut work) };
     assert!(is_strict_hull_of(&h, &orig));
 }
+#[cfg(kani)]
+fn c16(x: i16, y: i16) -> Coord<i16> { Coord { x, y } }
+
 #[cfg(kani)] #[kani::proof] #[kani::unwind(12)]
-fn c08_k_quick_hull_menu_0() { body_hull_menu(0, false); }
+fn c08_k_quick_hull_menu_0_rot0() { check_hull(vec![c16(4, 0), c16(2, 1), c16(3, 4), c16(0, 2)], vec![c16(4, 0), c16(2, 1), c16(3, 4), c16(0, 2)], false); }
 #[cfg(kani)] #[kani::proof] #[kani::unwind(12)]
-fn c08_k_quick_hull_menu_1() { body_hull_menu(1, false); }
+fn c08_k_graham_hull_menu_0_rot0() { check_hull(vec![c16(4, 0), c16(2, 1), c16(3, 4), c16(0, 2)], vec![c16(4, 0), c16(2, 1), c16(3, 4), c16(0, 2)], true); }
 #[cfg(kani)] #[kani::proof] #[kani::unwind(12)]
-fn c08_k_quick_hull_menu_2() { body_hull_menu(2, false); }
+fn c08_k_quick_hull_menu_0_rot1() { check_hull(vec![c16(2, 1), c16(3, 4), c16(0, 2), c16(4, 0)], vec![c16(2, 1), c16(3, 4), c16(0, 2), c16(4, 0)], false); }
 #[cfg(kani)] #[kani::proof] #[kani::unwind(12)]
-fn c08_k_graham_hull_menu_0() { body_hull_menu(0, true); }
+fn c08_k_graham_hull_menu_0_rot1() { check_hull(vec![c16(2, 1), c16(3, 4), c16(0, 2), c16(4, 0)], vec![c16(2, 1), c16(3, 4), c16(0, 2), c16(4, 0)], true); }
 #[cfg(kani)] #[kani::proof] #[kani::unwind(12)]
-fn c08_k_graham_hull_menu_1() { body_hull_menu(1, true); }
+fn c08_k_quick_hull_menu_0_rot2() { check_hull(vec![c16(3, 4), c16(0, 2), c16(4, 0), c16(2, 1)], vec![c16(3, 4), c16(0, 2), c16(4, 0), c16(2, 1)], false); }
 #[cfg(kani)] #[kani::proof] #[kani::unwind(12)]
-fn c08_k_graham_hull_menu_4() { body_hull_menu(4, true); }
+fn c08_k_graham_hull_menu_0_rot2() { check_hull(vec![c16(3, 4), c16(0, 2), c16(4, 0), c16(2, 1)], vec![c16(3, 4), c16(0, 2), c16(4, 0), c16(2, 1)], true); }
+#[cfg(kani)] #[kani::proof] #[kani::unwind(12)]
+fn c08_k_quick_hull_menu_1_rot0() { check_hull(vec![c16(0, 0), c16(2, 0), c16(4, 0), c16(4, 4), c16(0, 4)], vec![c16(0, 0), c16(2, 0), c16(4, 0), c16(4, 4), c16(0, 4)], false); }
+#[cfg(kani)] #[kani::proof] #[kani::unwind(12)]
+fn c08_k_graham_hull_menu_1_rot0() { check_hull(vec![c16(0, 0), c16(2, 0), c16(4, 0), c16(4, 4), c16(0, 4)], vec![c16(0, 0), c16(2, 0), c16(4, 0), c16(4, 4), c16(0, 4)], true); }
+#[cfg(kani)] #[kani::proof] #[kani::unwind(12)]
+fn c08_k_quick_hull_menu_1_rot1() { check_hull(vec![c16(2, 0), c16(4, 0), c16(4, 4), c16(0, 4), c16(0, 0)], vec![c16(2, 0), c16(4, 0), c16(4, 4), c16(0, 4), c16(0, 0)], false); }
+#[cfg(kani)] #[kani::proof] #[kani::unwind(12)]
+fn c08_k_graham_hull_menu_1_rot1() { check_hull(vec![c16(2, 0), c16(4, 0), c16(4, 4), c16(0, 4), c16(0, 0)], vec![c16(2, 0), c16(4, 0), c16(4, 4), c16(0, 4), c16(0, 0)], true); }
+#[cfg(kani)] #[kani::proof] #[kani::unwind(12)]
+fn c08_k_quick_hull_menu_1_rot2() { check_hull(vec![c16(4, 0), c16(4, 4), c16(0, 4), c16(0, 0), c16(2, 0)], vec![c16(4, 0), c16(4, 4), c16(0, 4), c16(0, 0), c16(2, 0)], false); }
+#[cfg(kani)] #[kani::proof] #[kani::unwind(12)]
+fn c08_k_graham_hull_menu_1_rot2() { check_hull(vec![c16(4, 0), c16(4, 4), c16(0, 4), c16(0, 0), c16(2, 0)], vec![c16(4, 0), c16(4, 4), c16(0, 4), c16(0, 0), c16(2, 0)], true); }
+#[cfg(kani)] #[kani::proof] #[kani::unwind(12)]
+fn c08_k_quick_hull_menu_2_rot0() { check_hull(vec![c16(0, 0), c16(4, 0), c16(4, 4), c16(0, 4), c16(2, 2), c16(0, 0), c16(4, 4)], vec![c16(0, 0), c16(4, 0), c16(4, 4), c16(0, 4), c16(2, 2), c16(0, 0), c16(4, 4)], false); }
+#[cfg(kani)] #[kani::proof] #[kani::unwind(12)]
+fn c08_k_graham_hull_menu_2_rot0() { check_hull(vec![c16(0, 0), c16(4, 0), c16(4, 4), c16(0, 4), c16(2, 2), c16(0, 0), c16(4, 4)], vec![c16(0, 0), c16(4, 0), c16(4, 4), c16(0, 4), c16(2, 2), c16(0, 0), c16(4, 4)], true); }
+#[cfg(kani)] #[kani::proof] #[kani::unwind(12)]
+fn c08_k_quick_hull_menu_2_rot1() { check_hull(vec![c16(4, 0), c16(4, 4), c16(0, 4), c16(2, 2), c16(0, 0), c16(4, 4), c16(0, 0)], vec![c16(4, 0), c16(4, 4), c16(0, 4), c16(2, 2), c16(0, 0), c16(4, 4), c16(0, 0)], false); }
+#[cfg(kani)] #[kani::proof] #[kani::unwind(12)]
+fn c08_k_graham_hull_menu_2_rot1() { check_hull(vec![c16(4, 0), c16(4, 4), c16(0, 4), c16(2, 2), c16(0, 0), c16(4, 4), c16(0, 0)], vec![c16(4, 0), c16(4, 4), c16(0, 4), c16(2, 2), c16(0, 0), c16(4, 4), c16(0, 0)], true); }
+#[cfg(kani)] #[kani::proof] #[kani::unwind(12)]
+fn c08_k_quick_hull_menu_2_rot2() { check_hull(vec![c16(4, 4), c16(0, 4), c16(2, 2), c16(0, 0), c16(4, 4), c16(0, 0), c16(4, 0)], vec![c16(4, 4), c16(0, 4), c16(2, 2), c16(0, 0), c16(4, 4), c16(0, 0), c16(4, 0)], false); }
+#[cfg(kani)] #[kani::proof] #[kani::unwind(12)]
+fn c08_k_graham_hull_menu_2_rot2() { check_hull(vec![c16(4, 4), c16(0, 4), c16(2, 2), c16(0, 0), c16(4, 4), c16(0, 0), c16(4, 0)], vec![c16(4, 4), c16(0, 4), c16(2, 2), c16(0, 0), c16(4, 4), c16(0, 0), c16(4, 0)], true); }
+#[cfg(kani)] #[kani::proof] #[kani::unwind(12)]
+fn c08_k_quick_hull_menu_3_rot0() { check_hull(vec![c16(0, 0), c16(1, 3), c16(2, 4), c16(3, 3), c16(4, 0), c16(2, -1), c16(1, 0), c16(3, 0)], vec![c16(0, 0), c16(1, 3), c16(2, 4), c16(3, 3), c16(4, 0), c16(2, -1), c16(1, 0), c16(3, 0)], false); }
+#[cfg(kani)] #[kani::proof] #[kani::unwind(12)]
+fn c08_k_graham_hull_menu_3_rot0() { check_hull(vec![c16(0, 0), c16(1, 3), c16(2, 4), c16(3, 3), c16(4, 0), c16(2, -1), c16(1, 0), c16(3, 0)], vec![c16(0, 0), c16(1, 3), c16(2, 4), c16(3, 3), c16(4, 0), c16(2, -1), c16(1, 0), c16(3, 0)], true); }
+#[cfg(kani)] #[kani::proof] #[kani::unwind(12)]
+fn c08_k_quick_hull_menu_3_rot1() { check_hull(vec![c16(1, 3), c16(2, 4), c16(3, 3), c16(4, 0), c16(2, -1), c16(1, 0), c16(3, 0), c16(0, 0)], vec![c16(1, 3), c16(2, 4), c16(3, 3), c16(4, 0), c16(2, -1), c16(1, 0), c16(3, 0), c16(0, 0)], false); }
+#[cfg(kani)] #[kani::proof] #[kani::unwind(12)]
+fn c08_k_graham_hull_menu_3_rot1() { check_hull(vec![c16(1, 3), c16(2, 4), c16(3, 3), c16(4, 0), c16(2, -1), c16(1, 0), c16(3, 0), c16(0, 0)], vec![c16(1, 3), c16(2, 4), c16(3, 3), c16(4, 0), c16(2, -1), c16(1, 0), c16(3, 0), c16(0, 0)], true); }
+#[cfg(kani)] #[kani::proof] #[kani::unwind(12)]
+fn c08_k_quick_hull_menu_3_rot2() { check_hull(vec![c16(2, 4), c16(3, 3), c16(4, 0), c16(2, -1), c16(1, 0), c16(3, 0), c16(0, 0), c16(1, 3)], vec![c16(2, 4), c16(3, 3), c16(4, 0), c16(2, -1), c16(1, 0), c16(3, 0), c16(0, 0), c16(1, 3)], false); }
+#[cfg(kani)] #[kani::proof] #[kani::unwind(12)]
+fn c08_k_graham_hull_menu_3_rot2() { check_hull(vec![c16(2, 4), c16(3, 3), c16(4, 0), c16(2, -1), c16(1, 0), c16(3, 0), c16(0, 0), c16(1, 3)], vec![c16(2, 4), c16(3, 3), c16(4, 0), c16(2, -1), c16(1, 0), c16(3, 0), c16(0, 0), c16(1, 3)], true); }
+#[cfg(kani)] #[kani::proof] #[kani::unwind(12)]
+fn c08_k_quick_hull_menu_4_rot0() { check_hull(vec![c16(3, 1), c16(0, 0), c16(1, 1), c16(2, 2), c16(3, 3), c16(0, 3)], vec![c16(3, 1), c16(0, 0), c16(1, 1), c16(2, 2), c16(3, 3), c16(0, 3)], false); }
+#[cfg(kani)] #[kani::proof] #[kani::unwind(12)]
+fn c08_k_graham_hull_menu_4_rot0() { check_hull(vec![c16(3, 1), c16(0, 0), c16(1, 1), c16(2, 2), c16(3, 3), c16(0, 3)], vec![c16(3, 1), c16(0, 0), c16(1, 1), c16(2, 2), c16(3, 3), c16(0, 3)], true); }
+#[cfg(kani)] #[kani::proof] #[kani::unwind(12)]
+fn c08_k_quick_hull_menu_4_rot1() { check_hull(vec![c16(0, 0), c16(1, 1), c16(2, 2), c16(3, 3), c16(0, 3), c16(3, 1)], vec![c16(0, 0), c16(1, 1), c16(2, 2), c16(3, 3), c16(0, 3), c16(3, 1)], false); }
+#[cfg(kani)] #[kani::proof] #[kani::unwind(12)]
+fn c08_k_graham_hull_menu_4_rot1() { check_hull(vec![c16(0, 0), c16(1, 1), c16(2, 2), c16(3, 3), c16(0, 3), c16(3, 1)], vec![c16(0, 0), c16(1, 1), c16(2, 2), c16(3, 3), c16(0, 3), c16(3, 1)], true); }
+#[cfg(kani)] #[kani::proof] #[kani::unwind(12)]
+fn c08_k_quick_hull_menu_4_rot2() { check_hull(vec![c16(1, 1), c16(2, 2), c16(3, 3), c16(0, 3), c16(3, 1), c16(0, 0)], vec![c16(1, 1), c16(2, 2), c16(3, 3), c16(0, 3), c16(3, 1), c16(0, 0)], false); }
+#[cfg(kani)] #[kani::proof] #[kani::unwind(12)]
+fn c08_k_graham_hull_menu_4_rot2() { check_hull(vec![c16(1, 1), c16(2, 2), c16(3, 3), c16(0, 3), c16(3, 1), c16(0, 0)], vec![c16(1, 1), c16(2, 2), c16(3, 3), c16(0, 3), c16(3, 1), c16(0, 0)], true); }
+#[cfg(kani)] #[kani::proof] #[kani::unwind(12)]
+fn c08_k_quick_hull_menu_5_rot0() { check_hull(vec![c16(5, 5), c16(1, 1), c16(5, 1), c16(1, 5), c16(3, 3), c16(3, 1)], vec![c16(5, 5), c16(1, 1), c16(5, 1), c16(1, 5), c16(3, 3), c16(3, 1)], false); }
+#[cfg(kani)] #[kani::proof] #[kani::unwind(12)]
+fn c08_k_graham_hull_menu_5_rot0() { check_hull(vec![c16(5, 5), c16(1, 1), c16(5, 1), c16(1, 5), c16(3, 3), c16(3, 1)], vec![c16(5, 5), c16(1, 1), c16(5, 1), c16(1, 5), c16(3, 3), c16(3, 1)], true); }
+#[cfg(kani)] #[kani::proof] #[kani::unwind(12)]
+fn c08_k_quick_hull_menu_5_rot1() { check_hull(vec![c16(1, 1), c16(5, 1), c16(1, 5), c16(3, 3), c16(3, 1), c16(5, 5)], vec![c16(1, 1), c16(5, 1), c16(1, 5), c16(3, 3), c16(3, 1), c16(5, 5)], false); }
+#[cfg(kani)] #[kani::proof] #[kani::unwind(12)]
+fn c08_k_graham_hull_menu_5_rot1() { check_hull(vec![c16(1, 1), c16(5, 1), c16(1, 5), c16(3, 3), c16(3, 1), c16(5, 5)], vec![c16(1, 1), c16(5, 1), c16(1, 5), c16(3, 3), c16(3, 1), c16(5, 5)], true); }
+#[cfg(kani)] #[kani::proof] #[kani::unwind(12)]
+fn c08_k_quick_hull_menu_5_rot2() { check_hull(vec![c16(5, 1), c16(1, 5), c16(3, 3), c16(3, 1), c16(5, 5), c16(1, 1)], vec![c16(5, 1), c16(1, 5), c16(3, 3), c16(3, 1), c16(5, 5), c16(1, 1)], false); }
+#[cfg(kani)] #[kani::proof] #[kani::unwind(12)]
+fn c08_k_graham_hull_menu_5_rot2() { check_hull(vec![c16(5, 1), c16(1, 5), c16(3, 3), c16(3, 1), c16(5, 5), c16(1, 1)], vec![c16(5, 1), c16(1, 5), c16(3, 3), c16(3, 1), c16(5, 5), c16(1, 1)], true); }
+
+/// known finding: several points exactly equidistant from the chord -- quick_hull keeps the LAST one in slice order
+/// even when it lies on the segment between two others, so a hull vertex lies on the segment between its neighbours
+#[cfg(kani)] #[kani::proof] #[kani::unwind(12)]
+fn c08_k_quick_hull_finding_equidistant_collinear() {
+    let c = |x: i16, y: i16| Coord { x, y };
+    let orig = vec![c(0, 0), c(4, 0), c(1, -1), c(3, -1), c(2, -1)];
+    let mut work = vec![c(0, 0), c(4, 0), c(1, -1), c(3, -1), c(2, -1)];
+    let h = qhull::quick_hull(&mut work);
+    assert!(is_strict_hull_of(&h, &orig));
+}
+/// ... Graham scan handles the same input
+#[cfg(kani)] #[kani::proof] #[kani::unwind(12)]
+fn c08_k_graham_hull_equidistant_collinear() {
+    let c = |x: i16, y: i16| Coord { x, y };
+    let orig = vec![c(0, 0), c(4, 0), c(1, -1), c(3, -1), c(2, -1)];
+    let mut work = vec![c(0, 0), c(4, 0), c(1, -1), c(3, -1), c(2, -1)];
+    let h = graham::graham_hull(&mut work, false);
+    assert!(is_strict_hull_of(&h, &orig));
+}
 
 #[cfg(kani)]
 include!(concat!(env!("GEO_VERIF_DIR"), "/.work/playback/pb_c08.rs"));
